@@ -63,6 +63,9 @@ type VC struct {
 	pure     int // >0: evaluating a pure call inside a spec: no obligations
 	stack    []*ssa.Function
 	topFrame *Frame
+	grefs    map[string]int
+	plan     *replayPlan
+	firstIter []string // replay hints: loop-head state equals the state on loop entry
 }
 
 type retInfo struct {
@@ -158,6 +161,20 @@ func (f *Frame) safe(kind, goal, desc string, p token.Pos) {
 	}
 	f.done[goal] = append(f.done[goal], f.curB)
 	f.oblige(kind, goal, desc, p, nil, f.vc.safety)
+}
+
+func (f *Frame) frontier() string { return f.vc.he.get(f.cur, "ALLOC", "Int") }
+
+func (f *Frame) tinv(t types.Type, v string) string {
+	return f.vc.te.typeInv(t, v, 0, f.frontier())
+}
+
+// a reference that is new at this point: larger than everything allocated so far
+func (f *Frame) freshRef(name string) string {
+	vc := f.vc
+	r := vc.sc.define("new:"+name, "Int", app("+", f.frontier(), "1"))
+	vc.he.set(f.cur, "ALLOC", "Int", r)
+	return r
 }
 
 func (f *Frame) assume(c string) {
@@ -375,14 +392,24 @@ func (f *Frame) run(reach0 string) {
 			f.checkInvariants(li, "inv-init", func(p *ssa.Phi) Val { return entryPhi[p] }, phis, st)
 			// havoc
 			mod := vc.loopMod(li)
+			pre := st.clone()
 			vc.he.havoc(st, mod)
+			if f.top && !mod.Top {
+				// replay hint: "the counterexample happens in the first iteration"
+				for _, l := range sortedKeys(mod.Locs) {
+					vc.firstIter = append(vc.firstIter, eq(st.loc[l], vc.he.get(pre, l, mod.Locs[l].sort(vc.te))))
+				}
+			}
 			for _, p := range phis {
 				if entryPhi[p].addr != nil || entryPhi[p].fn != nil {
 					unsupported("loop-carried address/function value %s in %s", p.Name(), fn)
 				}
 				v := vc.freshVal(p.Name()+":"+p.Comment, p.Type())
 				f.vals[p] = v
-				f.assume(vc.te.typeInv(p.Type(), v.t, 0))
+				f.assume(f.tinv(p.Type(), v.t))
+				if f.top && entryPhi[p].tup == nil {
+					vc.firstIter = append(vc.firstIter, eq(v.t, entryPhi[p].t))
+				}
 			}
 			f.assumeInvariants(li, phis, st)
 			li.measure0 = f.evalMeasure(li, phis, st)
@@ -469,10 +496,14 @@ func (f *Frame) val(v ssa.Value) Val {
 	case *ssa.Global:
 		elem := c.Type().(*types.Pointer).Elem()
 		if isStruct(elem) {
-			name := sym("gref:" + c.Pkg.Pkg.Path() + "." + c.Name())
-			vc.sc.declConst(name, "Int")
-			vc.sc.declAxiom("gref:"+name, app(">", name, "0"), name)
-			return Val{t: name, typ: c.Type()}
+			// globals of struct type live at fixed negative references
+			key := c.Pkg.Pkg.Path() + "." + c.Name()
+			id, ok := vc.grefs[key]
+			if !ok {
+				id = len(vc.grefs) + 1
+				vc.grefs[key] = id
+			}
+			return Val{t: num(int64(-1000 - id)), typ: c.Type()}
 		}
 		l, li := locGlobal(c)
 		return Val{typ: c.Type(), addr: &Addr{kind: "G", loc: l, li: li, typ: elem}}
@@ -574,16 +605,34 @@ func (vc *VC) subRef(owner types.Type, i int, r string) string {
 	inv := sym("subinv:" + typeKey(owner) + "." + owner.Underlying().(*types.Struct).Field(i).Name())
 	vc.sc.decl(fnm, fmt.Sprintf("(declare-fun %s (Int) Int)", fnm))
 	vc.sc.decl(inv, fmt.Sprintf("(declare-fun %s (Int) Int)", inv))
-	vc.sc.declAxiom("sub:"+fnm, fmt.Sprintf("(forall ((r Int)) (! (and (= (%s (%s r)) r) (> (%s r) 0)) :pattern ((%s r))))", inv, fnm, fnm, fnm), fnm)
-	return app(fnm, r)
+	if strings.Contains(r, "?") {
+		vc.sc.declAxiom("sub:"+fnm, fmt.Sprintf("(forall ((r Int)) (! (and (= (%s (%s r)) r) (< (%s r) 0)) :pattern ((%s r))))", inv, fnm, fnm, fnm), fnm)
+		return app(fnm, r)
+	}
+	t := app(fnm, r)
+	key := "inst:" + t
+	if !vc.sc.declSet[key] {
+		vc.sc.declSet[key] = true
+		vc.sc.assume(and(eq(app(inv, t), r), app("<", t, "0")))
+	}
+	return t
 }
 
 func (vc *VC) elemRef(arr, idx string) string {
 	vc.sc.decl("elem", "(declare-fun elem (Int Int) Int)")
 	vc.sc.decl("elem_arr", "(declare-fun elem_arr (Int) Int)")
 	vc.sc.decl("elem_idx", "(declare-fun elem_idx (Int) Int)")
-	vc.sc.declAxiom("elem", "(forall ((a Int) (i Int)) (! (and (= (elem_arr (elem a i)) a) (= (elem_idx (elem a i)) i) (> (elem a i) 0)) :pattern ((elem a i))))", "elem")
-	return app("elem", arr, idx)
+	if strings.Contains(arr+idx, "?") {
+		vc.sc.declAxiom("elem", "(forall ((a Int) (i Int)) (! (and (= (elem_arr (elem a i)) a) (= (elem_idx (elem a i)) i) (< (elem a i) 0)) :pattern ((elem a i))))", "elem")
+		return app("elem", arr, idx)
+	}
+	t := app("elem", arr, idx)
+	key := "inst:" + t
+	if !vc.sc.declSet[key] {
+		vc.sc.declSet[key] = true
+		vc.sc.assume(and(eq(app("elem_arr", t), arr), eq(app("elem_idx", t), idx), app("<", t, "0")))
+	}
+	return t
 }
 
 // load a whole value of type t living at struct reference r (t is a struct type)
@@ -628,18 +677,18 @@ func (f *Frame) load(p Val, pos token.Pos) Val {
 	elem := p.typ.Underlying().(*types.Pointer).Elem()
 	if p.addr != nil {
 		v := Val{t: f.vc.sc.define("ld", f.vc.te.sortOf(elem), f.readAddr(p.addr)), typ: elem}
-		f.assume(f.vc.te.typeInv(elem, v.t, 0))
+		f.assume(f.tinv(elem, v.t))
 		return v
 	}
 	f.safe("nil", app("not", eq(p.t, "0")), "load through "+p.t, pos)
 	if isStruct(elem) {
 		v := Val{t: f.gather(elem, p.t), typ: elem}
-		f.assume(f.vc.te.typeInv(elem, v.t, 0))
+		f.assume(f.tinv(elem, v.t))
 		return v
 	}
 	l, li := locCell(elem)
 	v := Val{t: f.vc.sc.define("ld", f.vc.te.sortOf(elem), f.readAddr(&Addr{kind: "C", loc: l, li: li, ref: p.t})), typ: elem}
-	f.assume(f.vc.te.typeInv(elem, v.t, 0))
+	f.assume(f.tinv(elem, v.t))
 	return v
 }
 
@@ -678,19 +727,7 @@ func (f *Frame) materialize(v Val) string {
 
 func (f *Frame) alloc(t types.Type, name string) Val {
 	vc := f.vc
-	r := vc.sc.freshConst("new:"+name, "Int")
-	f.assume(app(">", r, "0"))
-	for _, o := range vc.allocs {
-		f.assume(app("not", eq(r, o)))
-	}
-	for _, p := range vc.topFrame.params {
-		if p.addr == nil && p.t != "" && vc.te.sortOf(p.typ) == "Int" {
-			if _, ok := p.typ.Underlying().(*types.Pointer); ok {
-				f.assume(app("not", eq(r, p.t)))
-			}
-		}
-	}
-	vc.allocs = append(vc.allocs, r)
+	r := f.freshRef(name)
 	pt := types.NewPointer(t)
 	if isStruct(t) {
 		f.scatter(t, r, vc.te.zero(t))
@@ -807,8 +844,7 @@ func (f *Frame) instr(instr ssa.Instruction) bool {
 		ln := f.val(x.Len).t
 		cp := f.val(x.Cap).t
 		f.safe("slice", and(app("<=", "0", ln), app("<=", ln, cp)), "make slice", x.Pos())
-		arr := vc.sc.freshConst("mkslice", "Int")
-		f.assume(app(">", arr, "0"))
+		arr := f.freshRef("mkslice")
 		et := x.Type().Underlying().(*types.Slice).Elem()
 		if !isStruct(et) {
 			l, li := locElem(et)
@@ -817,8 +853,7 @@ func (f *Frame) instr(instr ssa.Instruction) bool {
 		}
 		f.vals[x] = Val{t: vc.sc.define("slice", sortSlice, app("mk_slice", arr, "0", ln, cp)), typ: x.Type()}
 	case *ssa.MakeMap:
-		m := vc.sc.freshConst("mkmap", "Int")
-		f.assume(app(">", m, "0"))
+		m := f.freshRef("mkmap")
 		l, li := locMapDom(x.Type())
 		srt := li.sort(te)
 		kt := x.Type().Underlying().(*types.Map).Key()
@@ -1078,7 +1113,7 @@ func (f *Frame) convert(x *ssa.Convert) Val {
 		return Val{t: v.t, typ: x.Type()}
 	case fs == "String" && ts == sortSlice:
 		r := vc.freshVal("str2slice", x.Type())
-		f.assume(vc.te.typeInv(x.Type(), r.t, 0))
+		f.assume(f.tinv(x.Type(), r.t))
 		if b, ok := to.(*types.Slice).Elem().Underlying().(*types.Basic); ok && b.Kind() == types.Uint8 {
 			f.assume(eq(app("s_len", r.t), app("str.len", v.t)))
 		} else {
@@ -1171,8 +1206,7 @@ func (f *Frame) sliceOp(x *ssa.Slice) {
 		if isStruct(at.Elem()) {
 			unsupported("slice of struct array")
 		}
-		arr := vc.sc.freshConst("arrslice", "Int")
-		f.assume(app(">", arr, "0"))
+		arr := f.freshRef("arrslice")
 		l, li := locElem(at.Elem())
 		srt := li.sort(vc.te)
 		vc.he.set(f.cur, l, srt, app("store", vc.he.get(f.cur, l, srt), arr, f.readAddr(base.addr)))
@@ -1205,7 +1239,7 @@ func (f *Frame) lookup(x *ssa.Lookup) {
 		val := Val{t: vc.sc.define("mapget", vc.te.sortOf(et), v), typ: et}
 		if sl, isSl := et.Underlying().(*types.Slice); isSl {
 			_ = sl
-			f.assume(vc.te.typeInv(et, val.t, 0))
+			f.assume(f.tinv(et, val.t))
 		}
 		if x.CommaOk {
 			f.vals[x] = Val{typ: x.Type(), tup: []Val{val, {t: vc.sc.define("mapok", "Bool", ok), typ: types.Typ[types.Bool]}}}
@@ -1246,8 +1280,8 @@ func (f *Frame) next(x *ssa.Next) {
 	v, okIn := f.mapRead(mt, m, k.t)
 	f.assume(implies(ok, okIn))
 	vv := Val{t: vc.sc.define("next.v", vc.te.sortOf(et), v), typ: et}
-	f.assume(vc.te.typeInv(et, vv.t, 0))
-	f.assume(vc.te.typeInv(kt, k.t, 0))
+	f.assume(f.tinv(et, vv.t))
+	f.assume(f.tinv(kt, k.t))
 	_ = tt
 	f.vals[x] = Val{typ: x.Type(), tup: []Val{{t: ok, typ: types.Typ[types.Bool]}, k, vv}}
 }
